@@ -162,3 +162,30 @@ def minrun_props():
          z3.And(z3.Select(A, z3.Int('j')), 0 <= a0, a0 <= z3.Int('j'), z3.Int('j') < c0, c0 <= n, c0 - a0 >= m)),
     ]
     return steps
+
+
+@lemma('minrun_idempotent')
+def minrun_idempotent():
+    """applying the filter twice changes nothing: with B'[k] = minrun(B, n, m, k) on [0, n), minrun(B', n, m, i) == B'[i]"""
+    B = z3.Array('B', z3.IntSort(), z3.BoolSort())
+    B2 = z3.Array('B2', z3.IntSort(), z3.BoolSort())
+    n, m, i, k, a0, c0, x = z3.Ints('n m i k a0 c0 x')
+    # B2 is the filtered array (normalised outside the range like every materialised array)
+    def_B2 = lambda v: z3.Select(B2, v) == z3.If(z3.And(0 <= v, v < n), minrun_def(B, n, m, v), False)
+    win = lambda arr, lo, hi: z3.ForAll([k], z3.Implies(z3.And(lo <= k, k < hi), z3.Select(arr, k)))
+    window_hyp = z3.And(0 <= a0, a0 <= i, i < c0, c0 <= n, c0 - a0 >= m, win(B, a0, c0))
+    steps = [
+        # (1) every member x of a True window of length >= m is itself kept (same window is its witness)
+        ('members-kept', [window_hyp, a0 <= x, x < c0],
+         z3.And(0 <= x, x < n, z3.Select(B, x),
+                z3.And(0 <= a0, a0 <= x, x < c0, c0 <= n, c0 - a0 >= m, win(B, a0, c0)))),
+        # (2) hence, if B2 is the filtered array, the window is also a True window of B2
+        ('window-transfers', [window_hyp, z3.ForAll([x], def_B2(x)),
+                              z3.ForAll([x], z3.Implies(z3.And(a0 <= x, x < c0), minrun_def(B, n, m, x)))],
+         win(B2, a0, c0)),
+        # (3) second application keeps what the first kept
+        ('kept-stays', [0 <= i, i < n, z3.Select(B2, i), def_B2(i), window_hyp, win(B2, a0, c0)], minrun_def(B2, n, m, i)),
+        # (4) and never adds anything
+        ('nothing-added', [minrun_def(B2, n, m, i)], z3.Select(B2, i)),
+    ]
+    return steps
